@@ -1459,9 +1459,14 @@ func (sc *serverConn) closeStream(st *stream, err error) {
 	}
 	delete(sc.streams, st.id)
 	if p := st.body; p != nil {
+		// Return any buffered unread bytes worth of conn-level flow control.
+		sc.sendWindowUpdate(nil, p.Len())
 		p.CloseWithError(err)
 		if st.defaultStreamWindow() {
 			p.Release(&fixBufferPool)
+		} else {
+			// The unread bytes were refunded above: do not hand them to the handler.
+			p.BreakWithError(err)
 		}
 	}
 	st.cw.Close() // signals Handler's CloseNotifier, unblocks writes, etc
@@ -1634,6 +1639,8 @@ func (sc *serverConn) processData(f *DataFrame) error {
 		if len(data) > 0 {
 			wrote, err := st.body.Write(data)
 			if err != nil {
+				// Return the conn-level flow control of the bytes not consumed.
+				sc.sendWindowUpdate(nil, int(f.Length)-wrote)
 				errMsg := fmt.Sprintf("stream body write error: %s", err)
 				return StreamError{id, ErrCodeStreamClosed, errMsg}
 			}
